@@ -394,6 +394,8 @@ def check(run, prog):
     from .c06_memo import rule_memoised_results
     rule_memoised_results(run, prog, "R-17.4")
     rule_token_identity(run, prog)
+    from .c03_comment_layout import rule_literal_layout
+    rule_literal_layout(run, prog, "R-17.7")
 
 
 def rule_token_identity(run, prog):
